@@ -65,7 +65,7 @@ Definition spec_lifetime_with (heuristic_ok : Z -> bool) (status : Z) (h : heade
       | [] =>
           if heuristic_ok status || sd_has (bs "public") cc then
             match spec_time (hget (bs "Last-Modified") h), spec_time (hget (bs "Date") h) with
-            | Some lm, Some d => if lm <? d then Z.min max64 ((d - lm) / 10) else 0
+            | Some lm, Some d => if lm <? d then Z.min max64 (d - lm) / 10 else 0
             | _, _ => 0
             end
           else 0
